@@ -5,6 +5,7 @@ pub mod c03;
 pub mod c04;
 pub mod c07;
 pub mod c08;
+pub mod c09;
 pub mod c10;
 pub mod c11;
 pub mod c12;
@@ -16,6 +17,7 @@ pub mod c14;
 pub mod c15;
 pub mod c16;
 pub mod c17;
+pub mod c18;
 
 pub fn run(id: &str, tier: &str) -> i32 {
   match id {
@@ -27,6 +29,7 @@ pub fn run(id: &str, tier: &str) -> i32 {
     "C06" => cpusweep::run("C06", tier),
     "C07" => c07::run(tier),
     "C08" => c08::run(tier),
+    "C09" => c09::run(tier),
     "C10" => c10::run(tier),
     "C11" => c11::run(tier),
     "C12" => c12::run(tier),
@@ -35,6 +38,7 @@ pub fn run(id: &str, tier: &str) -> i32 {
     "C15" => c15::run(tier),
     "C16" => c16::run(tier),
     "C17" => c17::run(tier),
+    "C18" => c18::run(tier),
     "C19" => c19::run(tier),
     "C20" => c20::run(tier),
     _ => {
@@ -70,6 +74,8 @@ pub fn worker(id: &str, args: &[String]) -> i32 {
   match id {
     "C03" => c03::worker(args),
     "C04" => c04::worker(args),
+    "C09" => c09::worker(args),
+    "C18" => c18::worker(args),
     _ => {
       eprintln!("no worker mode for {}", id);
       2
